@@ -13,7 +13,7 @@ HOOKS = dict(
     add_only=True,
 )
 
-CHECKS_IDS = ["C01", "C02", "C06", "C07", "C16"]
+CHECKS_IDS = ["C01", "C02", "C05", "C06", "C07", "C11", "C16"]
 
 ENGINES = [
     dict(name="mc", path="/verif/mc",
@@ -50,6 +50,20 @@ CHECKS = {
         note="Same bounds as C01; post-solve objects: all results of <= 2 operations over <= 4 held points and <= 3 "
              "held expressions on a sub-family of the cases (every 3rd / 10th case in quick).",
     ),
+    "C05": dict(
+        category="model_checking",
+        technique="exhaustive enumeration of all expression shapes (5^9 coefficient dictionaries) through both encoders + "
+                  "translation validation of every grammar model: the solver-side problem is read back as affine "
+                  "functionals (basis evaluation / recorded MOSEK task) and compared call by call with the declared model",
+        text="Shapes: every dictionary over 9 keys (mirrored / diagonal inner products, leaf expressions, constant; absent or "
+             "coefficient 0, 1, -2, 1/2) is translated by expression_to_matrices and expression_to_sparse_matrices and "
+             "compared exactly with the reference functional. Models: for every grammar model and both wrappers, recording "
+             "subclasses log each send call; the multiset of sent objects must equal an independent walk over the declared "
+             "model, every solver row must carry the declared sense and the reference affine data, LMI entries must be "
+             "coupled to their own auxiliary matrix, nothing else may be posed, and the objective must be the objective leaf.",
+        note="Quick: 5^7 shapes, half of the grammar; thorough: 5^9 shapes, full grammar. MOSEK side observed through the "
+             "stand-in's recorded task data.",
+    ),
     "C06": dict(
         category="model_checking",
         technique="bounded exhaustive enumeration of all typed DSL expression trees (<=3 operator nodes full scalar "
@@ -74,6 +88,18 @@ CHECKS = {
         note="Bound: depth 2 full / 3 reduced alphabet (quick), 3 / 4 (thorough); weights from {1,-1,2,0,cancelling,1/3*3}. "
              "Oracle is canonical-form comparison in mc/refalg.py.",
     ),
+    "C11": dict(
+        category="model_checking",
+        technique="every grammar model x {none, trace, logdet1} formulated through both wrappers; row-by-row comparison of "
+                  "the two posed SDPs (cvxpy Problem vs recorded MOSEK task) + value comparison + independent certificate "
+                  "and instance checks on both paths",
+        text="Decides, for every enumerated model, that the cvxpy path and the MOSEK path pose the same rows in the same "
+             "order with the same senses, data, LMI couplings and objective (also for the final problem after a dimension "
+             "reduction heuristic), return the same value, and that primal instance and dual certificate are valid on both "
+             "paths for the same constraint list (the observable meaning of 'same sign convention').",
+        note="Real MOSEK is not installed: the MOSEK side is the stand-in (records the task, solves it through CLARABEL, "
+             "answers in MOSEK's documented conventions, self-checks MOSEK's dual equations). Bounded by the grammar.",
+    ),
     "C16": dict(
         category="model_checking",
         technique="explicit enumeration of all histories <= 3 (4) over {real solve, injected 'no value' / 'error' solver "
@@ -92,5 +118,5 @@ CHECKS = {
 
 _PENDING = "check not built yet in this session (planned, see DESIGN.md section 4); not claimed until it has run clean and caught a mutant"
 NOT_APPLICABLE = {k: _PENDING for k in
-                  ["C03", "C04", "C05", "C08", "C09", "C10", "C11", "C12", "C13", "C14", "C15",
+                  ["C03", "C04", "C05", "C08", "C09", "C10", "C12", "C13", "C14", "C15",
                    "C17"]}
